@@ -15,6 +15,10 @@ def run(tier, seed):
         chk.notes.setdefault('failing_specs', []).append(dict(
             f=f2, pre_factor=f1 / f2, media=None, family='probe-sweep-thin-thick', tagmode='none', sources=[], loads=[], wires=[
                 gen.wire(9, [0.0, 0.0, 0.0], [0.0, 3.1, 0.4], 0.002), gen.wire(8, [0.0, 3.1, 0.4], [2.2, 5.0, 1.0], 0.002)]))
+    # fat tapered wires (the 2.5 radii limit governs the shortest segment): scaling has to scale that limit too
+    for kind in (1, 2, 3):
+        chk.notes.setdefault('failing_specs', []).append(dict(f=14.0, media=None, family='probe-fat-taper', tagmode='explicit', sources=[], loads=[],
+            wires=[gen.wire(14, [0.3, -2.0, 1.0], [3.1, 6.5, 4.2], 0.02, tag=1, taper=[kind, None, None])]))
     nor = 24 if (q and not chk.broken) else (64 if q else 1600)
     run_oracle(chk, rng, nor, 'zor.c05', 'c05-oracle', (None, None, 'ideal'))
     return chk.finish()
